@@ -47,7 +47,10 @@ func runC11(p *core.Program, r *core.Report) {
 	c := rc{p, r}
 	noAnswerBeforeTheScan(c, "gogu.Union", "gogu.Intersection", "gogu.IntersectionBy", "gogu.Difference", "gogu.DifferenceBy", "gogu.Without", "gogu.Unique", "gogu.UniqueBy", "gogu.Duplicate", "gogu.DuplicateWithIndex")
 	resultUntouchedAfterTheScan(c, "gogu.Union", "gogu.Intersection", "gogu.IntersectionBy", "gogu.Difference", "gogu.DifferenceBy", "gogu.Without", "gogu.Unique", "gogu.UniqueBy", "gogu.Duplicate", "gogu.DuplicateWithIndex")
+	// Intersection(By) counts occurrences against the number of lists: size is part of its statement
+	positionBlind(c, "gogu.Union", "gogu.Difference", "gogu.DifferenceBy", "gogu.Without", "gogu.Unique", "gogu.UniqueBy", "gogu.Duplicate", "gogu.DuplicateWithIndex")
 	hygiene(c, "slice.go")
+	noSingledOutValue(c, []string{"slice.go"}, nil)
 	containsFn := p.Func("gogu.Contains")
 
 	type spec struct {
